@@ -308,6 +308,8 @@ def gen_for(prop):
             # amounts whose policy fee does not fit 32 bits (>= 2^32 msat), with a part declaring a total just below the requirement
             cs += [story_case(r.fork(), ending=r.choice(PAY_ENDINGS), reject=(["low_total", "low_total_solo"][i % 2], i % 3), amount=[10**12, 10**15, 2 * 10**12, 1000, 10**9][i % 5], npieces=1 + i % 2)
                    for i in range(10 * k)]
+            cs += [story_case(r.fork(), ending=r.choice(PAY_ENDINGS), reject=("huge_solo", i), npieces=1, cfg=mk_cfg(r.fork(), policy=[[1000, 0, 144], [1, 5000, 144], [0, 1, 40], [4294967295, 0, 144]][i % 4]))
+                   for i in range(4 * k)]
             for amount in ([1, 1000, 21000, 10**6, 10**9, 10**12, 2**32 - 1, 2**32 + 1, 10**18] if T else [1, 21000, 10**9, 2**32 + 1, 10**12]):
                 cs += [story_case(r.fork(), ending=r.choice(PAY_ENDINGS), amount=amount, npieces=1 + i % 3) for i in range(6 if T else 3)]
             cs += reject_stories(r, 16 * k); cs += bursts(r, 12 * k)
